@@ -83,7 +83,10 @@ type traceLine struct {
 	Clock   int       `json:"clock"`
 	O       bool      `json:"o"`
 	Listed  bool      `json:"listed"`
-	St      obsStatus `json:"st"`
+	// the never-approved bystander devices (a dual-stack one, an IPv4-only and an IPv6-only one) are all listed
+	// and nothing else is
+	Others bool      `json:"others"`
+	St     obsStatus `json:"st"`
 }
 
 func must(err error) {
@@ -151,6 +154,13 @@ func runOne(b *behaviour, dir, missing string, enc *json.Encoder) {
 			must(os.MkdirAll(filepath.Dir(f), 0755))
 			must(os.WriteFile(f, []byte(data), 0644))
 		}
+		// bystanders: devices that have code in every policy and were never approved (no status file);
+		// their names sort before and behind `ipv6` and `router`
+		for _, rel := range []string{"code/aaa", "code/ipv6/aaa", "code/zzz", "code/ipv6/zzz6", "code/aaa.info", "code/ipv6/zzz6.info"} {
+			f := filepath.Join(pd, rel)
+			must(os.MkdirAll(filepath.Dir(f), 0755))
+			must(os.WriteFile(f, []byte("bystander\n"), 0644))
+		}
 		cur := filepath.Join(dir, "policies", "current")
 		os.Remove(cur)
 		must(os.Symlink("p"+strconv.Itoa(npol), cur))
@@ -161,7 +171,9 @@ func runOne(b *behaviour, dir, missing string, enc *json.Encoder) {
 		doObs := b.Obs == nil || (step < len(b.Obs) && b.Obs[step])
 		step++
 		listed := false
+		others := true
 		if doObs {
+			seen := map[string]int{}
 			cmd := exec.Command(missing)
 			cmd.Env = append(os.Environ(), "HOME="+dir)
 			var so, se bytes.Buffer
@@ -173,9 +185,10 @@ func runOne(b *behaviour, dir, missing string, enc *json.Encoder) {
 				if ln == "router" {
 					listed = true
 				} else if ln != "" {
-					must(fmt.Errorf("missing-approve printed unexpected line %q", ln))
+					seen[ln]++
 				}
 			}
+			others = len(seen) == 3 && seen["aaa"] == 1 && seen["zzz"] == 1 && seen["zzz6"] == 1
 		}
 		var st obsStatus
 		data, err := os.ReadFile(statusFile)
@@ -194,7 +207,7 @@ func runOne(b *behaviour, dir, missing string, enc *json.Encoder) {
 				raw.Compare.Result, polNum(raw.Compare.Policy), relTime(raw.Compare.Time)}
 		}
 		must(enc.Encode(traceLine{T: b.ID, Ev: ev.Ev, C: ev.C, P: ev.P, Kind: ev.Kind, Dev: dev,
-			Changed: changed, Clock: clock, O: doObs, Listed: listed, St: st}))
+			Changed: changed, Clock: clock, O: doObs, Listed: listed, Others: others, St: st}))
 	}
 	newPolicy(b.Init.C)
 	observe(event{Ev: "Init", C: b.Init.C}, false)
